@@ -372,6 +372,11 @@ func (fr *Frame) applyContract(c *Contract, fn *ssa.Function, key string, args [
 		names[g.Name] = cands[0]
 	}
 	fr.vc.relied[key] = true
+	if len(fr.eng.cf.AssumedInvs) > 0 && (len(c.Modifies) > 0 || len(c.Ensures) > 0) {
+		// the assumed data-structure invariants hold at every call boundary,
+		// also in the state the call starts from
+		fr.assumeGlobalInvariants()
+	}
 	pre := fr.st.clone()
 	for i, rq := range c.Requires {
 		t, err := fr.evalClause(rq, &evalCtx{fr: fr, st: fr.st, old: fr.st, names: names, callee: key})
